@@ -13,7 +13,7 @@ type Path struct {
 	Fn     *ssa.Function
 	Blocks []*ssa.BasicBlock
 	Lits   []PLit // branch literals in path order
-	Panics bool  // ends in panic rather than return
+	Panics bool   // ends in panic rather than return
 }
 
 // PLit is a branch literal on a path; At is the index (in Path.Blocks) of the block that branches.
